@@ -288,8 +288,9 @@ Local Close Scope string_scope.
 
 (* the model's _filtered_dir IS the loop structure above filled with the
    expressions extracted from the source: the isfile test, the literal of
-   endswith(), the string appended for a live log, `limit` and the slice
-   bound of sorted(...)[:limit] (an edit such as [:limit + 1] breaks this) *)
+   endswith(), the string appended for a live log and the slice bound of
+   sorted(...)[:limit] with the temporary `limit` inlined (an edit such as
+   [:limit + 1] breaks this) *)
 Definition fd_step_src (grp : str -> option str) (acc : fd_state)
            (e : str * bool) : fd_state :=
   let '(newc, groups) := acc in
@@ -306,7 +307,7 @@ Definition fd_step_src (grp : str -> option str) (acc : fd_state)
 Definition filtered_dir_src (grp : str -> option str) (nm : Z)
            (contents : list (str * bool)) (depth : Z) : list str :=
   let '(newc, groups) := fold_left (fd_step_src grp) contents ([], []) in
-  newc ++ flat_map (fun g => x_fd_cap (sort_key nm) (x_fd_limit depth) (snd g))
+  newc ++ flat_map (fun g => x_fd_cap (sort_key nm) depth (snd g))
                    groups.
 
 Theorem C09_filtered_dir_is_source_pieces : forall grp nm contents depth,
@@ -314,9 +315,9 @@ Theorem C09_filtered_dir_is_source_pieces : forall grp nm contents depth,
   filtered_dir_src grp nm contents depth = filtered_dir grp nm contents depth.
 Proof. intros. split; reflexivity. Qed.
 
-Theorem C09_cap_is_source_slice : forall (A : Type) (key : A -> Z) limit l d,
-  x_fd_cap key limit l = py_take limit (sort_by key l) /\ x_fd_limit d = d.
-Proof. intros. split; reflexivity. Qed.
+Theorem C09_cap_is_source_slice : forall (A : Type) (key : A -> Z) depth l,
+  x_fd_cap key depth l = py_take depth (sort_by key l).
+Proof. intros. reflexivity. Qed.
 
 (* get_source_id: 0 for the first path, max(ids) + 1 for a new one *)
 Definition get_source_id_src (t : list (Z * str)) (path : str)
@@ -365,9 +366,9 @@ Proof.
     vm_compute; reflexivity.
 Qed.
 
+(* (resolve_from_tag is tied through its loop/comprehension normal form,
+   x_resolve_from_tag_maps_tag_table below) *)
 Theorem C09_catalog_lookup_shapes :
-  calls_only_list tk_resolve_from_tag =
-    [SLoop [SEv (Call "resolve_from_id"); SEv (Call "append")]; SExit] /\
   calls_only_list tk_resolve_from_id = [SIf [SExit] []; SExit] /\
   calls_only_list tk_source_id_to_path =
     [STry [SExit] [("KeyError", [])] [] []; SExit].
